@@ -19,6 +19,7 @@ theorem step_observer_core (c : Cfg) (s : State) (op : Op) (h : op.isObserver = 
   | setSpec k => simp [Op.isObserver] at h
   | forward => simp [Op.isObserver] at h
   | optStep => simp [Op.isObserver] at h
+  | exportRaises => simp [step, core, obsStateExact]
 
 theorem run_cons (c : Cfg) (s : State) (op : Op) (ops : List Op) :
     run c s (op :: ops) = run c (step c s op).1 ops := rfl
@@ -50,6 +51,7 @@ theorem observer_out_of_core (c : Cfg) (a b : State) (op : Op) (h : op.isObserve
   | setSpec k => simp [Op.isObserver] at h
   | forward => simp [Op.isObserver] at h
   | optStep => simp [Op.isObserver] at h
+  | exportRaises => simp [step]
 
 /-- the sample a forward takes is the same up to the identity of the Gumbel draw -/
 theorem sample_obs (c : Cfg) (tr : Bool) (r r' : Nat) (a b : Theta)
@@ -91,6 +93,7 @@ theorem step_sim (c : Cfg) (a b : State) (op : Op) (h : obsState a = obsState b)
     have hs := sample_obs c b.strain a.rng b.rng a.theta b.theta h3 h4 hv
     simp [step, forwardStep, Op.isObserver, obsState, h1, h2, hb, hd, h5, h6, h7, h8, hs.1, hs.2.1, hs.2.2]
   | optStep => simp [step, optStepStep, costLive, Op.isObserver, obsState, *]
+  | exportRaises => simp [step, Op.isObserver, obsState, *]
 
 theorem run_sim (c : Cfg) (ops : List Op) :
     ∀ a b, obsState a = obsState b →
@@ -151,6 +154,7 @@ theorem step_sim_exact (c : Cfg) (hnd : ∀ tr, sampleDraws c tr = false) (a b :
     | getCostB => simp [Op.isObserver] at ho'
     | setSpec k => simp [step, core, obsStateExact, *]
     | optStep => simp [step, optStepStep, costLive, core, obsStateExact, *]
+    | exportRaises => simp [Op.isObserver] at ho'
     | forward =>
       have := sample_nodraw c b.strain a.rng b.rng b.theta (hnd _)
       simp [step, forwardStep, core, obsStateExact, h1, h2, hb, hd, h3, h4, h5, h6, h7, this]
